@@ -2,6 +2,7 @@ package main
 
 import (
 	"encoding/json"
+	"os/exec"
 	"flag"
 	"fmt"
 	"os"
@@ -28,9 +29,11 @@ type PropCfg struct {
 }
 
 type BoundedCfg struct {
-	Name  string `json:"name"`
-	Bound string `json:"bound"`
-	Cmd   string `json:"cmd"`
+	Name     string `json:"name"`     // test file /verif/bounded/<name>_test.go, injected with go test -overlay
+	Dir      string `json:"dir"`      // package directory relative to the repo
+	Quick    int    `json:"quick"`    // bound used by the quick tier
+	Thorough int    `json:"thorough"` // bound used by the thorough tier
+	What     string `json:"what"`
 }
 
 type Config struct {
@@ -212,8 +215,23 @@ func main() {
 		}
 		return
 	}
+	boundedRes := runBounded(pc, *prop, *tier, *repo, *verif, *fnKey != "")
 	discharge(reps, solveCfg{dir: scratch, timeoutS: *timeout, seed: seed, workers: 7, each: *tier == "thorough"})
 	res := summarize(*prop, *tier, seed, pc, reps, x, *verif, *repo, specFiles, t0, loadS, genS, *verbose, *timeout)
+	if len(boundedRes) > 0 {
+		res.evidence["coverage"].(map[string]interface{})["bounded"] = boundedRes
+		for _, b := range boundedRes {
+			if b["result"] != "ok" {
+				path := filepath.Join(*verif, "out", "replay", *prop, "bounded_"+b["name"].(string)+".txt")
+				os.MkdirAll(filepath.Dir(path), 0o755)
+				os.WriteFile(path, []byte(fmt.Sprintf("property: %s\nbounded check %s (bound %v) failed on the real code\n\n%s\n", *prop, b["name"], b["bound"], b["output"])), 0o644)
+				fmt.Printf("VIOLATION property=%s replay=%s\n", *prop, path)
+				res.exit = 1
+				res.evidence["violations"] = res.evidence["violations"].(int) + 1
+			}
+			delete(b, "output")
+		}
+	}
 	if !*noEvidence && *fnKey == "" {
 		must(writeEvidence(filepath.Join(*verif, "evidence", *prop+".json"), res.evidence))
 	}
@@ -700,4 +718,60 @@ func (x *Engine) useLemma(st *State, old *State, u *Clause, env map[string]Val, 
 	}
 	x.usedLemmas[lm.Name] = true
 	x.assume(st, fmt.Sprintf("(=> %s %s)", andTerms(req...), concl))
+}
+
+// runBounded executes the bounded stand-ins of a property against the real code (labelled bounded, never counted
+// as discharged obligations).
+func runBounded(pc *PropCfg, prop, tier, repo, verif string, skip bool) []map[string]interface{} {
+	if skip {
+		return nil
+	}
+	var out []map[string]interface{}
+	for _, b := range pc.Bounded {
+		bound := b.Quick
+		if tier == "thorough" && b.Thorough > 0 {
+			bound = b.Thorough
+		}
+		src := filepath.Join(verif, "bounded", b.Name+"_test.go")
+		pkgDir := filepath.Join(repo, b.Dir)
+		base := os.Getenv("TMPDIR")
+		if base == "" {
+			base = "/var/tmp"
+		}
+		dir, err := os.MkdirTemp(base, "vcgo.bounded.")
+		if err != nil {
+			continue
+		}
+		ov := map[string]map[string]string{"Replace": {filepath.Join(pkgDir, "zz_verif_bounded_test.go"): src}}
+		ovb, _ := json.Marshal(ov)
+		ovFile := filepath.Join(dir, "overlay.json")
+		os.WriteFile(ovFile, ovb, 0o644)
+		cmd := exec.Command("go", "test", "-overlay", ovFile, "-vet=off", "-count=1", "-timeout", "600s", "-v", "-run", "TestVerifBounded", ".")
+		cmd.Dir = pkgDir
+		cmd.Env = append(os.Environ(), "GOFLAGS=-mod=mod", "GOPROXY=off", "GOSUMDB=off", "GOTOOLCHAIN=local", fmt.Sprintf("VERIF_BOUND=%d", bound))
+		t0 := time.Now()
+		o, _ := cmd.CombinedOutput()
+		os.RemoveAll(dir)
+		res := map[string]interface{}{"name": b.Name, "bound": bound, "what": b.What, "cases": 0, "result": "error", "wall_s": round2(time.Since(t0).Seconds()), "output": truncate(string(o), 4000)}
+		for _, ln := range strings.Split(string(o), "\n") {
+			if strings.HasPrefix(ln, "BOUNDED ") {
+				for _, f := range strings.Fields(ln)[1:] {
+					kv := strings.SplitN(f, "=", 2)
+					if len(kv) != 2 {
+						continue
+					}
+					switch kv[0] {
+					case "cases":
+						n, _ := strconv.Atoi(kv[1])
+						res["cases"] = n
+					case "result":
+						res["result"] = kv[1]
+					}
+				}
+			}
+		}
+		fmt.Printf("bounded %s: bound %d, %v cases, %v\n", b.Name, bound, res["cases"], res["result"])
+		out = append(out, res)
+	}
+	return out
 }
